@@ -11,6 +11,7 @@ the matching `…_witness` theorems prove the model really departs from the spec
 import GPy.C07.Proofs
 import GPy.C07.TextProofs
 import GPy.C07.ShiftProofs
+import GPy.C07.BitProofs
 namespace GPy.C07
 
 /-- shared proof script: case-split on the representations of both operands,
@@ -186,6 +187,19 @@ theorem rshift_exact_partial (a b : Obj) (x y : Int) (ha : denote a = some x) (h
   all_goals (cases a <;> cases b <;> simp [denote, kfBoolOnly, isBool] at ha hb hk <;> subst ha hb <;> (try simp only [WF_int] at wa wb))
   all_goals dispatchShift
   all_goals (first | done | (split_ifs <;> simp <;> done) | (exfalso; split_ifs at hy <;> omega) | (exfalso; exact hr (inRange_bool _)) | (simp_all [inRange, IntMin, IntMax]; done) | (split_ifs <;> simp_all [inRange, IntMin, IntMax] <;> omega) | trace_state)
+
+/-- `& | ^` for every representation mix: two's complement with infinite sign extension -/
+theorem bitwise_exact_partial (op : BinOp) (hop : op = .and ∨ op = .or ∨ op = .xor)
+    (a b : Obj) (x y : Int) (ha : denote a = some x) (hb : denote b = some y)
+    (wa : WF a) (wb : WF b) (hk : kfBoolOnly [a, b] = false) :
+    denoteRes (binop op a b) = some (specBin op x y) := by
+  rcases hop with rfl | rfl | rfl
+  all_goals (cases a <;> cases b <;> simp [denote, kfBoolOnly, isBool] at ha hb hk <;> subst ha hb <;> (try simp only [WF_int] at wa wb))
+  all_goals
+    (simp [binop, meth, rmeth, intMeth, intRMeth, bigMeth, bigRMeth, boolMeth, convertToInt,
+      convertToBig, convertToBool, tyTag, BinOp.isCmp, denoteRes, specBin, inRange_bool,
+      and64_eq, or64_eq, xor64_eq, *])
+  all_goals first | exact iland_comm _ _ | exact ilor_comm _ _ | exact ixor_comm _ _
 
 /-- Text → integer: for EVERY text and EVERY base argument, `py.IntFromString` (model)
 yields exactly the value Python's `int(text, base)` grammar assigns, or ValueError
